@@ -186,7 +186,7 @@ def euml_machines(tier, seed):
     (BOOST_MSM_EUML_DECLARE_TRANSITION_TABLE inside the same state_machine_def): curated M15 / M18 and generated ones"""
     out = ['m15', 'm18', 'pgen:201', 'pgen:202']
     if tier == 'thorough':
-        out += ['pgen:%d' % (2000 + (seed % 1000) * 20 + k) for k in range(10)]
+        out += ['pgen:%d' % k for k in range(2020, 2030)]      # fixed set, see checks.THOROUGH_GEN
     return out
 
 
